@@ -978,7 +978,7 @@ class Circuit(Function):
             else:
                 self._gate_to_users[gate_label].extend(list_users)
 
-        check_circuit_has_no_cycles(self)
+        check_circuit_has_no_cycles(self, list(self._gates))
 
         return self
 
